@@ -26,6 +26,7 @@ import (
 	sdk "github.com/cosmos/cosmos-sdk/types"
 	authtypes "github.com/cosmos/cosmos-sdk/x/auth/types"
 	banktypes "github.com/cosmos/cosmos-sdk/x/bank/types"
+	slashingtypes "github.com/cosmos/cosmos-sdk/x/slashing/types"
 	stakingtypes "github.com/cosmos/cosmos-sdk/x/staking/types"
 	"github.com/ethereum/go-ethereum/common"
 	"github.com/ethereum/go-ethereum/crypto"
@@ -166,6 +167,7 @@ func NewNode(o Opts) *Node {
 	var vals []stakingtypes.Validator
 	var dels []stakingtypes.Delegation
 	var tmVals []abci.Validator
+	var signingInfos []slashingtypes.SigningInfo
 	for i := 0; i < o.NumVals; i++ {
 		pk := valKey(i)
 		tmPub := pk.PubKey()
@@ -190,7 +192,13 @@ func NewNode(o Opts) *Node {
 		genAccs = append(genAccs, &haqqtypes.EthAccount{BaseAccount: authtypes.NewBaseAccount(op.Addr, nil, 0, 0), CodeHash: emptyCodeHash})
 		balances = append(balances, banktypes.Balance{Address: op.Addr.String(), Coins: sdk.NewCoins(sdk.NewCoin(Denom, o.Balance))})
 		tmVals = append(tmVals, abci.Validator{Address: tmPub.Address(), Power: o.ValPower})
+		cons := sdk.ConsAddress(tmPub.Address())
+		signingInfos = append(signingInfos, slashingtypes.SigningInfo{Address: cons.String(),
+			ValidatorSigningInfo: slashingtypes.NewValidatorSigningInfo(cons, 0, 0, time.Unix(0, 0).UTC(), false, 0)})
 	}
+	slg := slashingtypes.DefaultGenesisState()
+	slg.SigningInfos = signingInfos
+	gs[slashingtypes.ModuleName] = cdc.MustMarshalJSON(slg)
 	gs[authtypes.ModuleName] = cdc.MustMarshalJSON(authtypes.NewGenesisState(authtypes.DefaultParams(), genAccs))
 	sp := stakingtypes.DefaultParams()
 	sp.BondDenom = Denom
